@@ -1,17 +1,516 @@
 package main
 
+// Forwarding transparency (implementation against implementation) and revoked proxies.
+// A history is applied in lock-step to an object A and to a 1-3 layer forwarding proxy P over a
+// structurally identical object B; every observation must coincide.
+
 import (
+	"encoding/json"
+	"fmt"
+	"os"
+	"strconv"
+	"strings"
+
+	"github.com/dop251/goja"
 	"verifharness/vh"
 )
 
-type HistCase struct {
-	Kind string `json:"kind"`
-}
-type RevCase struct {
-	Kind string `json:"kind"`
+type HistOp struct {
+	O string    `json:"o"`
+	K int       `json:"k,omitempty"`
+	V int       `json:"v,omitempty"`
+	R int       `json:"r,omitempty"` // receiver / prototype selector
+	S int       `json:"s,omitempty"` // surface variant
+	D *DescSpec `json:"d,omitempty"`
 }
 
-func histGen(r *vh.Rng, tier string) HistCase { return HistCase{Kind: "hist"} }
-func histRun(c HistCase) vh.Record { return vh.Record{Case: vh.MustJSON(c), Coq: "THist [] []", Tags: []string{"stub"}} }
-func revGen(r *vh.Rng) RevCase               { return RevCase{Kind: "rev"} }
-func revRun(c RevCase) vh.Record { return vh.Record{Case: vh.MustJSON(c), Coq: "TRev [true]", Tags: []string{"stub"}} }
+type HistCase struct {
+	Kind    string   `json:"kind"`
+	Target  string   `json:"target"`  // plain array function arguments string
+	Layers  int      `json:"layers"`  // 1..3
+	Handler []string `json:"handler"` // per layer: reflect | empty | go
+	Ops     []HistOp `json:"ops"`
+}
+
+type RevCase struct {
+	Kind   string `json:"kind"`
+	Target string `json:"target"`
+	Via    string `json:"via"` // revocable | go
+}
+
+var histTargets = []string{"plain", "array", "function", "arguments", "string"}
+var histOps = []string{"define", "get", "set", "has", "delete", "keys", "gopd", "prevext", "isext", "getproto", "setproto", "call"}
+
+const histNKeys = 10
+const histNVals = 7
+
+func histGen(r *vh.Rng, tier string) HistCase {
+	c := HistCase{Kind: "hist", Target: histTargets[r.Intn(len(histTargets))], Layers: 1 + r.Pick(5, 3, 2)}
+	mode := r.Pick(5, 2, 2, 2) // all reflect, all empty, all go, mixed
+	for i := 0; i < c.Layers; i++ {
+		h := []string{"reflect", "empty", "go"}[r.Intn(3)]
+		switch mode {
+		case 0:
+			h = "reflect"
+		case 1:
+			h = "empty"
+		case 2:
+			h = "go"
+		}
+		c.Handler = append(c.Handler, h)
+	}
+	n := 5 + r.Intn(36)
+	ob := func() *bool {
+		switch r.Intn(3) {
+		case 0:
+			return nil
+		case 1:
+			return bp(true)
+		}
+		return bp(false)
+	}
+	for i := 0; i < n; i++ {
+		op := HistOp{O: histOps[r.Pick(14, 12, 12, 8, 8, 10, 12, 3, 4, 4, 4, 3)], K: r.Intn(histNKeys), S: r.Intn(6)}
+		switch op.O {
+		case "define":
+			d := &DescSpec{W: ob(), E: ob(), C: ob()}
+			switch r.Pick(5, 3, 1, 1) {
+			case 0:
+				d.Value = ip(r.Intn(histNVals))
+			case 1:
+				d.W = nil
+				if r.Bool() {
+					d.Get = ip(r.Intn(2))
+				}
+				if r.Bool() {
+					d.Set = ip(r.Intn(2))
+				}
+				// an accessor with neither getter nor setter function is reported as a data property by the
+				// proxy (finding F6c, covered by the lattice); histories avoid creating one so that its
+				// consequences (freeze/seal redefining it as data, layered get checks) do not drown the rest
+				if (d.Get == nil || *d.Get == 0) && (d.Set == nil || *d.Set == 0) {
+					d.Get = ip(1)
+				}
+			case 2: // invalid mix
+				d.Value = ip(1)
+				d.Get = ip(1)
+			}
+			op.D = d
+		case "set":
+			op.V = r.Intn(histNVals)
+			op.R = r.Pick(6, 2, 2)
+		case "get":
+			op.R = r.Pick(6, 2, 2)
+		case "setproto":
+			op.R = r.Intn(3)
+		}
+		c.Ops = append(c.Ops, op)
+	}
+	return c
+}
+
+func revGen(r *vh.Rng) RevCase {
+	return RevCase{Kind: "rev", Target: histTargets[r.Intn(len(histTargets))], Via: []string{"revocable", "go"}[r.Intn(2)]}
+}
+
+const histPrelude = `
+"use strict";
+var HSYM = Symbol("h"), VOBJ = {vobj: 1};
+var curLog = null, nameOf = null;
+function GETF(){ curLog.push("get@" + nameOf(this)); return 41; }
+function SETF(v){ curLog.push("set@" + nameOf(this) + "=" + hcanon(v)); }
+var HF = [undefined, GETF, SETF];
+var PROTO = {inh: 1}; Object.defineProperty(PROTO, "pacc", {get: GETF, set: SETF, enumerable: true, configurable: true});
+Object.defineProperty(PROTO, "pro", {value: 5, writable: false, enumerable: true, configurable: true});
+var OTHERPROTO = {oth: 2};
+var HKEYS = ["a", "b", "length", "0", "1", "5", HSYM, "nc", "acc", "pacc"];
+var HVALS = [1, 2, "x", undefined, NaN, -0, VOBJ];
+function hcanon(v){
+  if (v === undefined) return "u"; if (v === null) return "n";
+  switch (typeof v){
+  case "boolean": return v ? "T" : "F";
+  case "number": return Object.is(v, -0) ? "-0" : String(v);
+  case "string": return JSON.stringify(v);
+  case "symbol": return v === HSYM ? "@h" : "@?";
+  }
+  return nameOf(v); }
+function hdesc(d){
+  if (d === undefined) return "u";
+  if ("get" in d || "set" in d) return "{g:" + hcanon(d.get) + ",s:" + hcanon(d.set) + ",e:" + hcanon(d.enumerable) + ",c:" + hcanon(d.configurable) + "}";
+  return "{v:" + hcanon(d.value) + ",w:" + hcanon(d.writable) + ",e:" + hcanon(d.enumerable) + ",c:" + hcanon(d.configurable) + "}"; }
+function hkeys(l){ var o = []; for (var i = 0; i < l.length; i++) o.push(hcanon(l[i])); return "[" + o.join(",") + "]"; }
+function hmkdesc(d){ var r = {};
+  if ("value" in d) r.value = HVALS[d.value];
+  if ("writable" in d) r.writable = d.writable;
+  if ("enumerable" in d) r.enumerable = d.enumerable;
+  if ("configurable" in d) r.configurable = d.configurable;
+  if ("get" in d) r.get = HF[d.get ? 1 : 0];
+  if ("set" in d) r.set = HF[d.set ? 2 : 0];
+  return r; }
+function hmk(kind){
+  var o;
+  switch (kind){
+  case "plain": o = Object.create(PROTO); o.a = 1; break;
+  case "array": o = [1, 2, 3]; o.a = 1; break;
+  case "function": o = function fn(x){ return 7; }; break;
+  case "arguments": o = Function("x", "y", "return arguments;")(1, 2); break;
+  case "string": o = new String("abc"); break;
+  }
+  Object.defineProperty(o, "nc", {value: 9, writable: false, enumerable: true, configurable: false});
+  Object.defineProperty(o, "acc", {get: GETF, set: SETF, enumerable: true, configurable: true});
+  o[HSYM] = 3;
+  return o; }
+var REFLECT_HANDLER = {
+  getPrototypeOf: function(t){ return Reflect.getPrototypeOf(t); },
+  setPrototypeOf: function(t, p){ return Reflect.setPrototypeOf(t, p); },
+  isExtensible: function(t){ return Reflect.isExtensible(t); },
+  preventExtensions: function(t){ return Reflect.preventExtensions(t); },
+  getOwnPropertyDescriptor: function(t, k){ return Reflect.getOwnPropertyDescriptor(t, k); },
+  defineProperty: function(t, k, d){ return Reflect.defineProperty(t, k, d); },
+  has: function(t, k){ return Reflect.has(t, k); },
+  get: function(t, k, r){ return Reflect.get(t, k, r); },
+  set: function(t, k, v, r){ return Reflect.set(t, k, v, r); },
+  deleteProperty: function(t, k){ return Reflect.deleteProperty(t, k); },
+  ownKeys: function(t){ return Reflect.ownKeys(t); },
+  apply: function(t, th, args){ return Reflect.apply(t, th, args); },
+  construct: function(t, args, nt){ return Reflect.construct(t, args, nt); }
+};
+function herr(e){
+  if (e instanceof TypeError) return "TypeError"; if (e instanceof RangeError) return "RangeError";
+  if (e instanceof SyntaxError) return "SyntaxError"; if (e instanceof ReferenceError) return "ReferenceError";
+  return "Thrown"; }
+function hforin(o){ var l = []; for (var k in o) l.push(k); return l; }
+function hop(o, op, recvObj){
+  var k = HKEYS[op.k|0], s = op.s|0;
+  switch (op.o){
+  case "define": return s % 2 ? hcanon(Reflect.defineProperty(o, k, hmkdesc(op.d))) : (Object.defineProperty(o, k, hmkdesc(op.d)), "ok");
+  case "get": return hcanon(op.r === 1 ? Reflect.get(o, k, o) : op.r === 2 ? Reflect.get(o, k, recvObj) : s % 2 ? o[k] : Reflect.get(o, k));
+  case "set": var v = HVALS[op.v];
+    if (op.r === 1) return hcanon(Reflect.set(o, k, v, o));
+    if (op.r === 2) return hcanon(Reflect.set(o, k, v, recvObj)) + hdesc(Reflect.getOwnPropertyDescriptor(recvObj, k));
+    if (s % 3 === 0){ o[k] = v; return "ok"; }
+    if (s % 3 === 1) return hcanon(Function("o", "k", "v", "o[k] = v; return 0;")(o, k, v));
+    return hcanon(Reflect.set(o, k, v));
+  case "has": return hcanon(s % 2 ? (k in o) : Reflect.has(o, k));
+  case "delete": return s % 3 === 0 ? hcanon(delete o[k]) : s % 3 === 1 ? hcanon(Function("o", "k", "return delete o[k];")(o, k)) : hcanon(Reflect.deleteProperty(o, k));
+  case "keys": switch (s){
+    case 0: return hkeys(Reflect.ownKeys(o));
+    case 1: return hkeys(Object.keys(o));
+    case 2: return hkeys(Object.getOwnPropertyNames(o));
+    case 3: return hkeys(Object.getOwnPropertySymbols(o));
+    case 4: return hkeys(hforin(o));
+    default: return hkeys(Object.entries(o).map(function(e){ return e[0] + "=" + hcanon(e[1]); })); }
+  case "gopd": return hdesc(s % 2 ? Object.getOwnPropertyDescriptor(o, k) : Reflect.getOwnPropertyDescriptor(o, k));
+  case "prevext": switch (s){
+    case 0: return hcanon(Reflect.preventExtensions(o));
+    case 1: Object.preventExtensions(o); return "ok";
+    case 2: Object.seal(o); return "ok";
+    case 3: Object.freeze(o); return "ok";
+    default: return hcanon(Reflect.preventExtensions(o)); }
+  case "isext": return s % 3 === 0 ? hcanon(Reflect.isExtensible(o)) : s % 3 === 1 ? hcanon(Object.isFrozen(o)) : hcanon(Object.isSealed(o));
+  case "getproto": return hcanon(s % 2 ? Object.getPrototypeOf(o) : Reflect.getPrototypeOf(o));
+  case "setproto": var p = [null, PROTO, OTHERPROTO][op.r|0];
+    return s % 2 ? (Object.setPrototypeOf(o, p), "ok") : hcanon(Reflect.setPrototypeOf(o, p));
+  case "call": if (typeof o !== "function") return hcanon(typeof o);
+    return s % 2 ? hcanon(o(1)) : hcanon(typeof new o(1));
+  }
+  throw new Error("op " + op.o); }
+function hdump(o){
+  var ks = Reflect.ownKeys(o), out = [];
+  for (var i = 0; i < ks.length; i++) out.push(hcanon(ks[i]) + ":" + hdesc(Reflect.getOwnPropertyDescriptor(o, ks[i])));
+  return "ext=" + Reflect.isExtensible(o) + " proto=" + hcanon(Reflect.getPrototypeOf(o)) + " {" + out.join(" ") + "}"; }
+function hNonConfAccessor(o, k){
+  var ks = k === undefined ? Reflect.ownKeys(o) : [k];
+  for (var i = 0; i < ks.length; i++){ var d = Reflect.getOwnPropertyDescriptor(o, ks[i]);
+    if (d && ("get" in d) && !d.configurable) return true; }
+  return false; }
+function runHist(cs, mkGo){
+  var c = JSON.parse(cs);
+  var A = hmk(c.target), B = hmk(c.target), inner = [B], P = B;
+  for (var i = 0; i < c.layers; i++){
+    var h = c.handler[i];
+    P = h === "go" ? mkGo(P) : new Proxy(P, h === "empty" ? {} : REFLECT_HANDLER);
+    if (i < c.layers - 1) inner.push(P); }
+  var recvA = {recv: 1}, recvB = {recv: 1};
+  nameOf = function(x){
+    if (x === A || x === P) return "SELF"; if (inner.indexOf(x) >= 0) return "TARGET";
+    if (x === PROTO) return "PROTO"; if (x === OTHERPROTO) return "OTHERPROTO"; if (x === VOBJ) return "VOBJ";
+    if (x === GETF) return "GETF"; if (x === SETF) return "SETF"; if (x === recvA || x === recvB) return "RECV";
+    if (x === Object.prototype) return "ObjP"; if (x === Array.prototype) return "ArrP"; if (x === Function.prototype) return "FunP";
+    if (x === String.prototype) return "StrP";
+    return typeof x === "function" ? "fn?" : "obj?"; };
+  hdump(A); hdump(B); /* warm-up: lazy function properties */
+  var da = [], dp = [], ok = [], f6 = true, firstDiff = -1, firstBad = -1;
+  for (var j = 0; j < c.ops.length; j++){
+    var op = c.ops[j], ra, rp, la = [], lp = [];
+    var f6key = (op.o === "gopd" || op.o === "define") ? HKEYS[op.k|0] : undefined;
+    var f6shape = hNonConfAccessor(A, f6key);
+    curLog = la; try { ra = hop(A, op, recvA); } catch (e) { ra = herr(e); }
+    curLog = lp; try { rp = hop(P, op, recvB); } catch (e) { rp = herr(e); }
+    f6shape = f6shape || hNonConfAccessor(A, f6key);   /* the operation itself may have made it non-configurable */
+    ra = op.o + ":" + ra + "|" + la.join(","); rp = op.o + ":" + rp + "|" + lp.join(",");
+    da.push(ra); dp.push(rp);
+    if (ra !== rp){ if (firstDiff < 0) firstDiff = j;
+      if (!(f6shape && rp.indexOf(op.o + ":TypeError") === 0 && ra.indexOf(op.o + ":TypeError") !== 0 &&
+            ["gopd", "define", "keys", "prevext", "isext", "set"].indexOf(op.o) >= 0)){ if (f6) firstBad = j; f6 = false; } }
+    if (/^(define|set|delete|prevext|setproto):(T|ok)/.test(ra)) ok.push(op.o);
+    if (firstDiff >= 0) break; /* after a divergence the two states differ: later observations are consequences */ }
+  curLog = [];
+  var fa = "final:" + (firstDiff >= 0 ? "-" : hdump(A)), fb = "final:" + (firstDiff >= 0 ? "-" : hdump(B));
+  da.push(fa); dp.push(fb);
+  if (fa !== fb){ if (f6) firstBad = c.ops.length; f6 = false; if (firstDiff < 0) firstDiff = c.ops.length; }
+  if (!f6) firstDiff = firstBad;
+  return JSON.stringify({direct: da, proxied: dp, mutated: ok.length, firstDiff: firstDiff, f6: f6}); }
+function runRev(cs, mkGoRevoked){
+  var c = JSON.parse(cs), t = hmk(c.target), p;
+  nameOf = function(){ return "x"; }; curLog = [];
+  if (c.via === "go") p = mkGoRevoked(t);
+  else { var r = Proxy.revocable(t, {}); p = r.proxy; r.revoke(); }
+  var tests = [
+    function(){ Reflect.getPrototypeOf(p); }, function(){ Reflect.setPrototypeOf(p, null); },
+    function(){ Reflect.isExtensible(p); }, function(){ Reflect.preventExtensions(p); },
+    function(){ Reflect.getOwnPropertyDescriptor(p, "a"); }, function(){ Reflect.defineProperty(p, "a", {value: 1}); },
+    function(){ Reflect.has(p, "a"); }, function(){ Reflect.get(p, "a"); }, function(){ Reflect.set(p, "a", 1); },
+    function(){ Reflect.deleteProperty(p, "a"); }, function(){ Reflect.ownKeys(p); },
+    function(){ "a" in p; }, function(){ p.a; }, function(){ p.a = 1; }, function(){ delete p.a; },
+    function(){ Object.keys(p); }, function(){ for (var k in p) {} }, function(){ p[HSYM]; }, function(){ p[0]; },
+    function(){ Object.getOwnPropertyNames(p); }, function(){ Object.isFrozen(p); }, function(){ Object.freeze(p); },
+    function(){ Object.getPrototypeOf(p); }, function(){ JSON.stringify(p); }, function(){ Object.assign({}, p); },
+    function(){ Array.isArray(p); }, function(){ Object.prototype.toString.call(p); }, function(){ p instanceof Object; }
+  ];
+  if (typeof t === "function"){ tests.push(function(){ p(); }); tests.push(function(){ new p(); });
+    tests.push(function(){ Reflect.apply(p, undefined, []); }); }
+  var out = [];
+  for (var i = 0; i < tests.length; i++){ try { tests[i](); out.push("none"); } catch (e) { out.push(herr(e)); } }
+  return JSON.stringify(out); }
+`
+
+var histPrg = goja.MustCompile("hist.js", histPrelude, false)
+
+func histHash(s string) uint64 {
+	h := uint64(0xcbf29ce484222325)
+	for i := 0; i < len(s); i++ {
+		h ^= uint64(s[i])
+		h *= 0x100000001b3
+	}
+	return h & (1<<60 - 1)
+}
+
+// a Go-native forwarding handler: every trap of ProxyTrapConfig forwards to Reflect.* on the target
+func histGoHandler(rt *goja.Runtime) *goja.ProxyTrapConfig {
+	refl := rt.Get("Reflect").ToObject(rt)
+	call := func(name string, args ...goja.Value) goja.Value {
+		f, _ := goja.AssertFunction(refl.Get(name))
+		v, err := f(goja.Undefined(), args...)
+		if err != nil {
+			panic(err)
+		}
+		return v
+	}
+	protoVal := func(p *goja.Object) goja.Value {
+		if p == nil {
+			return goja.Null()
+		}
+		return p
+	}
+	toDesc := func(v goja.Value) goja.PropertyDescriptor {
+		var pd goja.PropertyDescriptor
+		o, ok := v.(*goja.Object)
+		if !ok {
+			return pd
+		}
+		has := func(n string) bool { return call("has", o, rt.ToValue(n)).ToBoolean() }
+		fl := func(n string) goja.Flag {
+			if !has(n) {
+				return goja.FLAG_NOT_SET
+			}
+			if o.Get(n).ToBoolean() {
+				return goja.FLAG_TRUE
+			}
+			return goja.FLAG_FALSE
+		}
+		if has("value") {
+			pd.Value = o.Get("value")
+		}
+		if has("get") {
+			pd.Getter = o.Get("get")
+		}
+		if has("set") {
+			pd.Setter = o.Get("set")
+		}
+		pd.Writable, pd.Enumerable, pd.Configurable = fl("writable"), fl("enumerable"), fl("configurable")
+		return pd
+	}
+	fromDesc := func(pd goja.PropertyDescriptor) goja.Value {
+		o := rt.NewObject()
+		if pd.Value != nil {
+			o.Set("value", pd.Value)
+		}
+		if pd.Getter != nil {
+			o.Set("get", pd.Getter)
+		}
+		if pd.Setter != nil {
+			o.Set("set", pd.Setter)
+		}
+		if pd.Writable != goja.FLAG_NOT_SET {
+			o.Set("writable", pd.Writable == goja.FLAG_TRUE)
+		}
+		if pd.Enumerable != goja.FLAG_NOT_SET {
+			o.Set("enumerable", pd.Enumerable == goja.FLAG_TRUE)
+		}
+		if pd.Configurable != goja.FLAG_NOT_SET {
+			o.Set("configurable", pd.Configurable == goja.FLAG_TRUE)
+		}
+		return o
+	}
+	str := func(s string) goja.Value { return rt.ToValue(s) }
+	return &goja.ProxyTrapConfig{
+		GetPrototypeOf: func(t *goja.Object) *goja.Object {
+			v := call("getPrototypeOf", t)
+			if o, ok := v.(*goja.Object); ok {
+				return o
+			}
+			return nil
+		},
+		SetPrototypeOf:    func(t *goja.Object, p *goja.Object) bool { return call("setPrototypeOf", t, protoVal(p)).ToBoolean() },
+		IsExtensible:      func(t *goja.Object) bool { return call("isExtensible", t).ToBoolean() },
+		PreventExtensions: func(t *goja.Object) bool { return call("preventExtensions", t).ToBoolean() },
+		GetOwnPropertyDescriptor: func(t *goja.Object, k string) goja.PropertyDescriptor {
+			return toDesc(call("getOwnPropertyDescriptor", t, str(k)))
+		},
+		GetOwnPropertyDescriptorSym: func(t *goja.Object, k *goja.Symbol) goja.PropertyDescriptor {
+			return toDesc(call("getOwnPropertyDescriptor", t, k))
+		},
+		DefineProperty: func(t *goja.Object, k string, d goja.PropertyDescriptor) bool {
+			return call("defineProperty", t, str(k), fromDesc(d)).ToBoolean()
+		},
+		DefinePropertySym: func(t *goja.Object, k *goja.Symbol, d goja.PropertyDescriptor) bool {
+			return call("defineProperty", t, k, fromDesc(d)).ToBoolean()
+		},
+		Has:               func(t *goja.Object, k string) bool { return call("has", t, str(k)).ToBoolean() },
+		HasSym:            func(t *goja.Object, k *goja.Symbol) bool { return call("has", t, k).ToBoolean() },
+		Get:               func(t *goja.Object, k string, r goja.Value) goja.Value { return call("get", t, str(k), r) },
+		GetIdx:            func(t *goja.Object, k int, r goja.Value) goja.Value { return call("get", t, str(strconv.Itoa(k)), r) },
+		GetSym:            func(t *goja.Object, k *goja.Symbol, r goja.Value) goja.Value { return call("get", t, k, r) },
+		Set:               func(t *goja.Object, k string, v, r goja.Value) bool { return call("set", t, str(k), v, r).ToBoolean() },
+		SetSym:            func(t *goja.Object, k *goja.Symbol, v, r goja.Value) bool { return call("set", t, k, v, r).ToBoolean() },
+		DeleteProperty:    func(t *goja.Object, k string) bool { return call("deleteProperty", t, str(k)).ToBoolean() },
+		DeletePropertyIdx: func(t *goja.Object, k int) bool { return call("deleteProperty", t, str(strconv.Itoa(k))).ToBoolean() },
+		DeletePropertySym: func(t *goja.Object, k *goja.Symbol) bool { return call("deleteProperty", t, k).ToBoolean() },
+		OwnKeys:           func(t *goja.Object) *goja.Object { return call("ownKeys", t).ToObject(rt) },
+		Apply: func(t *goja.Object, this goja.Value, args []goja.Value) goja.Value {
+			return call("apply", t, this, rt.NewArray(toIfaces(args)...))
+		},
+		Construct: func(t *goja.Object, args []goja.Value, nt *goja.Object) *goja.Object {
+			return call("construct", t, rt.NewArray(toIfaces(args)...), nt).ToObject(rt)
+		},
+	}
+}
+
+func toIfaces(vs []goja.Value) []interface{} {
+	out := make([]interface{}, len(vs))
+	for i, v := range vs {
+		out[i] = v
+	}
+	return out
+}
+
+func histEnv() (*goja.Runtime, goja.Callable, goja.Callable) {
+	rt := goja.New()
+	if _, err := rt.RunProgram(histPrg); err != nil {
+		panic(err)
+	}
+	rh, _ := goja.AssertFunction(rt.Get("runHist"))
+	rr, _ := goja.AssertFunction(rt.Get("runRev"))
+	return rt, rh, rr
+}
+
+type histOut struct {
+	Direct    []string `json:"direct"`
+	Proxied   []string `json:"proxied"`
+	Mutated   int      `json:"mutated"`
+	FirstDiff int      `json:"firstDiff"`
+	F6        bool     `json:"f6"`
+}
+
+func coqNList(ss []string) string {
+	var it []string
+	for _, s := range ss {
+		it = append(it, fmt.Sprintf("%d%%N", histHash(s)))
+	}
+	return vh.CoqList(it)
+}
+
+func histRun(c HistCase) vh.Record {
+	raw := vh.MustJSON(c)
+	rt, rh, _ := histEnv()
+	mkGo := rt.ToValue(func(fc goja.FunctionCall) goja.Value {
+		return rt.ToValue(rt.NewProxy(fc.Argument(0).ToObject(rt), histGoHandler(rt)))
+	})
+	tags := []string{"hist", "target=" + c.Target, fmt.Sprintf("layers=%d", c.Layers), "handler=" + strings.Join(c.Handler, "+")}
+	v, err := rh(goja.Undefined(), rt.ToValue(string(raw)), mkGo)
+	if err != nil {
+		return vh.Record{Case: raw, Coq: failTerm, Obs: "harness error: " + err.Error(), Tags: tags}
+	}
+	if os.Getenv("C11_DEBUG") != "" {
+		fmt.Fprintln(os.Stderr, v.String())
+	}
+	var o histOut
+	if e := jsonUnmarshal(v.String(), &o); e != nil {
+		return vh.Record{Case: raw, Coq: failTerm, Obs: "bad observation", Tags: tags}
+	}
+	seen := map[string]bool{}
+	for _, op := range c.Ops {
+		if !seen[op.O] {
+			seen[op.O] = true
+			tags = append(tags, "op="+op.O)
+		}
+	}
+	obs := fmt.Sprintf("%d ops, identical", len(c.Ops))
+	if o.FirstDiff >= 0 {
+		d, p := "", ""
+		if o.FirstDiff < len(o.Direct) {
+			d, p = o.Direct[o.FirstDiff], o.Proxied[o.FirstDiff]
+		}
+		prefix := "DIFF:"
+		if o.F6 {
+			prefix = "F6:"
+			tags = append(tags, "f6")
+		}
+		obs = fmt.Sprintf("%s first difference at op %d: direct=%.300s proxied=%.300s", prefix, o.FirstDiff, d, p)
+	}
+	return vh.Record{
+		Case:       raw,
+		Coq:        fmt.Sprintf("THist %s %s", coqNList(o.Direct), coqNList(o.Proxied)),
+		Obs:        obs,
+		Tags:       tags,
+		Nontrivial: o.Mutated > 0,
+	}
+}
+
+func revRun(c RevCase) vh.Record {
+	raw := vh.MustJSON(c)
+	rt, _, rr := histEnv()
+	mk := rt.ToValue(func(fc goja.FunctionCall) goja.Value {
+		p := rt.NewProxy(fc.Argument(0).ToObject(rt), &goja.ProxyTrapConfig{})
+		v := rt.ToValue(p)
+		p.Revoke()
+		return v
+	})
+	tags := []string{"rev", "target=" + c.Target, "via=" + c.Via}
+	v, err := rr(goja.Undefined(), rt.ToValue(string(raw)), mk)
+	if err != nil {
+		return vh.Record{Case: raw, Coq: failTerm, Obs: "harness error: " + err.Error(), Tags: tags}
+	}
+	var outs []string
+	if e := jsonUnmarshal(v.String(), &outs); e != nil {
+		return vh.Record{Case: raw, Coq: failTerm, Obs: "bad observation", Tags: tags}
+	}
+	var bs []string
+	for _, s := range outs {
+		bs = append(bs, vh.CoqBool(s == "TypeError"))
+	}
+	return vh.Record{Case: raw, Coq: "TRev " + vh.CoqList(bs), Obs: strings.Join(outs, ","), Tags: tags, Nontrivial: true}
+}
+
+func jsonUnmarshal(s string, v interface{}) error { return json.Unmarshal([]byte(s), v) }
